@@ -157,7 +157,7 @@ static void part_reuse(void) {
 }
 
 int main(int argc, char **argv) {
-	h_init(); if (argc < 5) return 2; int thorough = !strcmp(argv[2], "thorough"); sh = atoi(argv[3]); nsh = atoi(argv[4]);
+	h_init(); h_watchdog(5, 12);	/* 60 s of CPU inside one element = the call under test does not return */ if (argc < 5) return 2; int thorough = !strcmp(argv[2], "thorough"); sh = atoi(argv[3]); nsh = atoi(argv[4]);
 	for (size_t i = 0; i < sizeof plain; i++) plain[i] = "abcabcabd-xyz"[i % 13] ^ (uint8_t)(i / 40);
 	if (!strcmp(argv[1], "lzma")) part_lzma(thorough); else if (!strcmp(argv[1], "lz")) part_lz(thorough); else if (!strcmp(argv[1], "xz")) part_xz(thorough); else if (sh == 0) part_reuse();
 	printf("STAT evals=%ld distinct=%ld states=%ld transitions=%ld memlimit_skips=%ld\n", n_cmp, n_files, n_files, n_cmp, n_memlimit_skips);
